@@ -55,6 +55,13 @@ fn run_ops(pb: &mut PathBuilder, mut l: &[i128]) {
                 pb.clear();
                 l = r;
             }
+            [10, r @ ..] => {
+                let taken = std::mem::replace(pb, PathBuilder::new());
+                if let Some(p) = taken.finish() {
+                    *pb = p.clear();
+                }
+                l = r;
+            }
             _ => return,
         }
     }
@@ -98,5 +105,18 @@ pub fn run_from_points(l: &[i128]) -> Vec<i128> {
     match Rect::from_points(&pts) {
         Some(r) => vec![b(r.left()), b(r.top()), b(r.right()), b(r.bottom())],
         None => vec![-1],
+    }
+}
+
+pub fn run_transform(l: &[i128]) -> Vec<i128> {
+    if l.len() < 6 {
+        return vec![-3];
+    }
+    let ts = tiny_skia_path::Transform::from_row(f(l[0]), f(l[2]), f(l[1]), f(l[3]), f(l[4]), f(l[5]));
+    let mut pb = PathBuilder::new();
+    run_ops(&mut pb, &l[6..]);
+    match pb.finish() {
+        Some(p) => enc_path(p.transform(ts).as_ref()),
+        None => vec![-2],
     }
 }
